@@ -67,6 +67,9 @@ pub struct FaultCtx {
     pub fresh_ok: bool,
     /// number of live blocks before the call
     pub blocks_before: usize,
+    /// the operation inserts several elements one by one (extend, from_iter): a panic in a later
+    /// element's growth step legitimately leaves the earlier elements in place
+    pub multi: bool,
 }
 
 pub const TOGGLE: u32 = 0x4000_0000;
@@ -259,7 +262,7 @@ impl<K: KeyT, V: ValT> MapWorld<K, V> {
             }
         }
         // growth into a new allocation interrupted by the hasher: contents unchanged, new block returned
-        if class == Class::Hash && grew {
+        if class == Class::Hash && grew && !fc.multi {
             let mut a: Vec<ME> = act.iter().map(|x| x.0).collect();
             a.sort();
             if a != fc.before.sorted() {
@@ -846,6 +849,7 @@ impl<K: KeyT, V: ValT> MapWorld<K, V> {
         let toks: Vec<(u32, u32, u32, u32)> = items.iter().map(|(k, v)| (k.id(), k.serial(), v.val(), v.serial())).collect();
         let mut fc = self.fctx(si, op);
         fc.allowed = pairs.clone();
+        fc.multi = true;
         fc.arg_serials = toks.iter().flat_map(|t| [t.1, t.3]).collect();
         let hint = op.a;
         let src = SimSource { items: items.into_iter(), hint: if hint < 0 { None } else { Some(hint as usize) } };
@@ -1291,7 +1295,9 @@ impl<K: KeyT, V: ValT> MapWorld<K, V> {
             let k = K::make(kid);
             let v = V::make(kid);
             let (ks, vs) = (k.serial(), v.serial());
-            let fc = self.fctx(si, op);
+            let mut fc = self.fctx(si, op);
+            fc.allowed.push((kid, kid));
+            fc.arg_serials = vec![ks, vs];
             let m = self.slots[si].map.as_mut().unwrap();
             let out = self.ctx.call(op, || m.insert(k, v).is_some());
             let Some(was) = self.settle(out, si, fc)? else { return Ok(()) };
